@@ -556,22 +556,30 @@ def scenario_indexer(run, seed, k, mods):
         with quiet:
             uc = unitcell.unitcell(cell, "P")
             ix2 = indexing.indexer(unitcell=uc, gv=gv.copy(), hkl_tol=tol, wavelength=0.3)
-            ix2.assigntorings()
-            nr = int((ix2.ra == -1).sum())
             try:
-                m2 = np.asarray(ix2.getind(ubis[0]))
-                run.count("getind_default_after_assigntorings_ok")
-                if m2.shape != (n,) or (m2 & (errs[0] > t2 + bw)).any() or (~m2 & (errs[0] < t2 - bw)).any():
-                    V("getind:after-assigntorings", "getind does not return exactly the peaks within tolerance of the matrix")
-            except ValueError:
-                run.count("getind_default_after_assigntorings_raises_ValueError")
-                run.extra["getind_default_offring_observation"] = (
-                    "indexer.getind(UBI) with default scratch arrays raises ValueError after assigntorings() when %d of %d peaks "
-                    "are off-ring (arrays sized len(gvflat), g-vectors len(gv))" % (nr, n))
-            m3 = np.asarray(ix2.getind(ubis[0], drlv2tmp=np.empty(n, float), labelstmp=np.empty(n, np.int32)))
-            run.count("getind_calls")
-            if m3.shape != (n,) or (m3 & (errs[0] > t2 + bw)).any() or (~m3 & (errs[0] < t2 - bw)).any():
-                V("getind:scratch:after-assigntorings", "getind does not return exactly the peaks within tolerance of the matrix")
+                ix2.assigntorings()
+            except IndexError:
+                # a very short peak list whose largest |g| lies below the first reflection: makerings has no ring to make
+                # (the input class that C03 and C06 also skip, see DESIGN.md Corrections); nothing of C07 to judge
+                run.count("assigntorings_skipped_no_reflection_below_limit")
+                ix2 = None
+    if k % 4 == 0 and ix2 is not None:
+        with quiet:
+                nr = int((ix2.ra == -1).sum())
+                try:
+                    m2 = np.asarray(ix2.getind(ubis[0]))
+                    run.count("getind_default_after_assigntorings_ok")
+                    if m2.shape != (n,) or (m2 & (errs[0] > t2 + bw)).any() or (~m2 & (errs[0] < t2 - bw)).any():
+                        V("getind:after-assigntorings", "getind does not return exactly the peaks within tolerance of the matrix")
+                except ValueError:
+                    run.count("getind_default_after_assigntorings_raises_ValueError")
+                    run.extra["getind_default_offring_observation"] = (
+                        "indexer.getind(UBI) with default scratch arrays raises ValueError after assigntorings() when %d of %d peaks "
+                        "are off-ring (arrays sized len(gvflat), g-vectors len(gv))" % (nr, n))
+                m3 = np.asarray(ix2.getind(ubis[0], drlv2tmp=np.empty(n, float), labelstmp=np.empty(n, np.int32)))
+                run.count("getind_calls")
+                if m3.shape != (n,) or (m3 & (errs[0] > t2 + bw)).any() or (~m3 & (errs[0] < t2 - bw)).any():
+                    V("getind:scratch:after-assigntorings", "getind does not return exactly the peaks within tolerance of the matrix")
     # ---- the notebook helper: labels start as zeros, errors as ones; grain i is label i
     if nb_utils is not None:
         cf = columnfile.colfile_from_dict({"gx": gv[:, 0].copy(), "gy": gv[:, 1].copy(), "gz": gv[:, 2].copy()})
@@ -705,7 +713,8 @@ def scenario_refinegrains(run, seed, idx, mods):
             gl = [grain.grain(np.linalg.inv(grains[g][0]), translation=(None if g == j0 else grains[g][1].copy())) for g in range(ng)]
             grain.write_grain_file(gfn, gl)
             back = grain.read_grain_file(gfn)
-            o2 = refinegrains.refinegrains(tolerance=tol, OmFloat=False)
+            with contextlib.redirect_stdout(io.StringIO()):
+                o2 = refinegrains.refinegrains(tolerance=tol, OmFloat=False)
             o2.parameterobj = parameters.parameters(**dict(p, t_x=float(T[0]), t_y=float(T[1]), t_z=float(T[2])))
             cf3 = columnfile.colfile_from_dict({"sc": s["sc"].copy(), "fc": s["fc"].copy(), "omega": s["omega"].copy(),
                                                 "labels": np.zeros(n) - 2, "drlv2": np.ones(n)})
